@@ -480,4 +480,438 @@ Proof.
   - right. destruct Htop as (id & Hin & Hr). exists id. split; [exact Hin | lia].
 Qed.
 
+
+Definition FC (sm : store_map) (a : nat) : Prop := alookup (idn a) sm = None.
+Definition NoGaps (sm : store_map) (a : nat) : Prop :=
+  forall i, (i < a)%nat -> alookup (idn i) sm <> None.
+
+Lemma sm_lookup_lt : forall sm id, sm_ok sm -> alookup id sm <> None -> in_class id.
+Proof. intros sm id Hok H. apply Hok. apply in_akeys_alookup. exact H. Qed.
+
+(* when next_cmc is not found in the buffer, the next rank is not in the map *)
+Lemma fc_of_lookup : forall sm a st, Inv sm a st -> sm_ok sm ->
+  alookup (ms_next sp st) (ms_pend st) = None -> FC sm a.
+Proof.
+  intros sm a st I Hok Hn. unfold FC.
+  destruct (alookup (idn a) sm) as [b|] eqn:Eb; [|reflexivity]. exfalso.
+  assert (Hc : in_class (idn a)) by (apply (sm_lookup_lt sm); [exact Hok | congruence]).
+  destruct Hc as (Hlt & _ & _).
+  rewrite (next_is sm a st I Hlt) in Hn. rewrite (inv_pend _ _ _ I), rank_idn in Hn.
+  destruct (N.ltb_spec (N.of_nat a) (N.of_nat a)); [lia|]. rewrite Eb in Hn. discriminate.
+Qed.
+
+Lemma flush_loop_inv : forall fuel sm a st,
+  Inv sm a st -> sm_ok sm -> (length (ms_pend st) <= fuel)%nat ->
+  exists a' st', flush_loop sp fuel st = (st', Ok tt) /\ Inv sm a' st' /\ (a <= a')%nat /\
+                 FC sm a' /\ (forall i, (a <= i < a')%nat -> alookup (idn i) sm <> None).
+Proof.
+  induction fuel as [|f IH]; intros sm a st I Hok Hlen.
+  - cbn [flush_loop].
+    destruct (alookup (ms_next sp st) (ms_pend st)) as [b|] eqn:E.
+    + destruct (ms_pend st); [discriminate | simpl in Hlen; lia].
+    + exists a, st. split; [reflexivity|]. split; [exact I|]. split; [lia|].
+      split; [eapply fc_of_lookup; eassumption | intros i Hi; lia].
+  - cbn [flush_loop].
+    destruct (alookup (ms_next sp st) (ms_pend st)) as [b|] eqn:E.
+    + destruct (pend_key sm a st _ _ I Hok E) as (Hc & Hr & b0 & Eb0 & ->).
+      destruct (class_bound _ a Hc Hr) as (Hle & Hlt & Ha).
+      pose proof (next_is sm a st I Hlt) as Enx. rewrite Enx in *.
+      (* the found identifier has rank exactly a *)
+      assert (Hcp : cpay sp enc sm mb a = enc b0).
+      { unfold cpay. fold (idn a). rewrite Eb0. reflexivity. }
+      rewrite <- Hcp.
+      assert (I2 : Inv sm (S a) (ms_append (with_pend st (aremove (idn a) (ms_pend st)))
+                                           (cpay sp enc sm mb a) (idn a))).
+      { apply append_inv with (sm := sm); try assumption.
+        - intros; reflexivity.
+        - exists (idn a). split; [apply in_akeys_alookup; congruence | rewrite rank_idn; lia]. }
+      destruct (IH sm (S a) _ I2 Hok) as (a' & st' & Ef & I' & Hle' & Hfc & Hng).
+      { cbn [ms_pend ms_append with_pend]. pose proof (length_aremove_lt _ _ _ E). lia. }
+      exists a', st'. split; [exact Ef|]. split; [exact I'|]. split; [lia|]. split; [exact Hfc|].
+      intros i Hi. destruct (Nat.eq_dec i a) as [->|Hne]; [congruence | apply Hng; lia].
+    + exists a, st. split; [reflexivity|]. split; [exact I|]. split; [lia|].
+      split; [eapply fc_of_lookup; eassumption | intros i Hi; lia].
+Qed.
+
+Lemma flush_buffer_inv : forall sm a st,
+  Inv sm a st -> sm_ok sm ->
+  exists a' st', flush_buffer sp st = (st', Ok tt) /\ Inv sm a' st' /\ (a <= a')%nat /\
+                 FC sm a' /\ (forall i, (a <= i < a')%nat -> alookup (idn i) sm <> None).
+Proof.
+  intros sm a st I Hok. unfold flush_buffer. rewrite (inv_mask _ _ _ I).
+  destruct (flush_loop_inv (length (ms_pend st)) sm a st I Hok (le_n _))
+    as (a' & st' & Ef & I' & Hle & Hfc & Hng).
+  rewrite Ef.
+  assert (Hex : existsb (fun k => k <? ms_next sp st') (akeys (ms_pend st')) = false).
+  { destruct (existsb _ _) eqn:Ex; [|reflexivity]. exfalso.
+    apply existsb_exists in Ex. destruct Ex as (k & Hin & Hk).
+    apply in_akeys_alookup in Hin.
+    destruct (alookup k (ms_pend st')) as [c|] eqn:Ec; [|congruence].
+    destruct (pend_key sm a' st' _ _ I' Hok Ec) as (Hc & Hr & _).
+    destruct (class_bound _ a' Hc Hr) as (Hle' & Hlt & _).
+    rewrite (next_is sm a' st' I' Hlt) in Hk. apply N.ltb_lt in Hk. lia. }
+  rewrite Hex. exists a', st'. split; [reflexivity|]. split; [exact I'|]. split; [exact Hle|].
+  split; assumption.
+Qed.
+
+Lemma with_mask_same : forall st x, ms_mask st = Some x -> with_mask st x = st.
+Proof. intros [] x H; simpl in *. subst. reflexivity. Qed.
+
+Lemma in_class_not_lt : forall sm a id, NoGaps sm a -> in_class id -> alookup id sm = None ->
+  N.of_nat a <= rank sp id.
+Proof.
+  intros sm a id Hng Hc Hn. destruct (N.le_gt_cases (N.of_nat a) (rank sp id)) as [H|H]; [exact H|].
+  exfalso. apply (Hng (N.to_nat (rank sp id))); [lia|]. rewrite <- (class_idn id Hc). exact Hn.
+Qed.
+
+(* one store of a new identifier of the class *)
+Lemma store_inv : forall sm a st id buf,
+  (ms_mask st = None \/ ms_mask st = Some mb) ->
+  Inv sm a (with_mask st mb) -> sm_ok sm -> FC sm a -> NoGaps sm a ->
+  in_class id -> alookup id sm = None ->
+  exists a' st', ms_store sp enc st buf id = (st', Ok tt) /\
+                 Inv ((id, buf) :: sm) a' st' /\ sm_ok ((id, buf) :: sm) /\
+                 FC ((id, buf) :: sm) a' /\ NoGaps ((id, buf) :: sm) a'.
+Proof.
+  intros sm a st id buf Hm I Hok Hfc Hng Hc Hnew.
+  set (sm' := (id, buf) :: sm).
+  assert (Hok' : sm_ok sm').
+  { intros k [<-|Hk]; [exact Hc | apply Hok; exact Hk]. }
+  assert (Hmb : (match ms_mask st with
+                 | Some x => if x =? 0 then masked_of sp id else x
+                 | None => masked_of sp id end) = mb).
+  { destruct Hc as (Hlt & Hcl & _).
+    pose proof (masked_of_is_mbits sp id Hlt Hms) as Em. rewrite Hcl in Em.
+    destruct Hm as [-> | ->]; [exact Em|].
+    destruct (N.eqb_spec mb 0) as [E0|E0]; [rewrite Em; reflexivity | reflexivity]. }
+  unfold ms_store. rewrite Hmb. set (st1 := with_mask st mb) in *.
+  pose proof (in_class_not_lt sm a id Hng Hc Hnew) as Hr.
+  destruct (class_bound id a Hc Hr) as (Hle & Hlt & Ha).
+  rewrite (next_is sm a st1 I Hlt).
+  destruct (N.ltb_spec id (idn a)) as [Hbad|_]; [lia|].
+  assert (Hlk : forall k, k <> id -> alookup k sm' = alookup k sm).
+  { intros k Hk. unfold sm'. simpl. destruct (N.eqb_spec id k); [congruence | reflexivity]. }
+  destruct (N.eqb_spec (idn a) id) as [E|E].
+  - (* appended at once, then the buffer is flushed *)
+    assert (Hpn : alookup (idn a) (ms_pend st1) = None).
+    { rewrite (inv_pend _ _ _ I), rank_idn.
+      destruct (N.ltb_spec (N.of_nat a) (N.of_nat a)); [reflexivity|]. rewrite Hfc. reflexivity. }
+    assert (Hcp : cpay sp enc sm' mb a = enc buf).
+    { unfold cpay. fold (idn a). rewrite E. unfold sm'. simpl. rewrite N.eqb_refl. reflexivity. }
+    assert (I2 : Inv sm' (S a) (ms_append st1 (enc buf) id)).
+    { rewrite <- Hcp, <- E. rewrite <- (with_pend_same st1) at 1.
+      rewrite <- (aremove_absent (idn a) (ms_pend st1) Hpn) at 1.
+      apply append_inv with (sm := sm); try assumption.
+      - intros k Hk. apply Hlk. congruence.
+      - exists id. split; [left; reflexivity | lia]. }
+    destruct (flush_buffer_inv sm' (S a) _ I2 Hok') as (a' & st' & Ef & I' & Hle' & Hfc' & Hng').
+    exists a', st'. split; [exact Ef|]. split; [exact I'|]. split; [exact Hok'|]. split; [exact Hfc'|].
+    intros i Hi. destruct (lt_eq_lt_dec i a) as [[Hlt' | ->] | Hgt].
+    + rewrite Hlk; [apply Hng; exact Hlt'|]. intro Ei. rewrite <- E in Ei. apply idn_inj in Ei. lia.
+    + rewrite E. unfold sm'. simpl. rewrite N.eqb_refl. discriminate.
+    + apply Hng'. lia.
+  - (* ahead of the expected identifier: buffered *)
+    assert (Hra : N.of_nat a < rank sp id).
+    { destruct (N.eq_dec (rank sp id) (N.of_nat a)) as [Er|Er]; [|lia].
+      exfalso. apply E. rewrite (class_idn id Hc), Er, Nat2N.id. reflexivity. }
+    assert (Hagi : forall i, (i < a)%nat -> alookup (idn i) sm' = alookup (idn i) sm).
+    { intros i Hi. apply Hlk. intro Ei. pose proof (rank_idn i) as Ri. rewrite Ei in Ri. lia. }
+    destruct (canon_agree sm sm' 0 a Hagi) as [Eh Ed].
+    exists a, (with_pend st1 (aset id (enc buf) (ms_pend st1))).
+    split; [reflexivity|]. split; [|split; [exact Hok'|split]].
+    + constructor; cbn [ms_mask ms_off ms_app ms_last ms_hdr ms_data ms_pend with_pend].
+      * apply (inv_mask _ _ _ I).
+      * apply (inv_off _ _ _ I).
+      * apply (inv_app _ _ _ I).
+      * apply (inv_last _ _ _ I).
+      * rewrite Eh. apply (inv_hdr _ _ _ I).
+      * rewrite Ed. apply (inv_data _ _ _ I).
+      * intro k. rewrite alookup_aset, (inv_pend _ _ _ I).
+        destruct (N.eqb_spec id k) as [<-|Hk].
+        -- destruct (N.ltb_spec (rank sp id) (N.of_nat a)); [lia|].
+           unfold sm'. simpl. rewrite N.eqb_refl. reflexivity.
+        -- rewrite (Hlk k) by congruence. reflexivity.
+      * destruct (inv_top _ _ _ I) as [->|(k & Hin & Hk)]; [left; reflexivity|].
+        right. exists k. split; [right; exact Hin | exact Hk].
+    + unfold FC. rewrite Hlk by exact E. exact Hfc.
+    + intros i Hi. destruct (N.eq_dec (idn i) id) as [Ei|Ei].
+      * rewrite Ei. unfold sm'. simpl. rewrite N.eqb_refl. discriminate.
+      * rewrite Hlk by exact Ei. apply Hng. exact Hi.
+Qed.
+
+
+(* gap filling *)
+Lemma close_loop_inv : forall fuel sm a st,
+  Inv sm a st -> sm_ok sm -> FC sm a ->
+  (forall k, In k (akeys (ms_pend st)) -> rank sp k < N.of_nat a + N.of_nat fuel) ->
+  exists a' st', close_loop sp fuel st = (st', Ok tt) /\ Inv sm a' st' /\ ms_pend st' = [].
+Proof.
+  induction fuel as [|f IH]; intros sm a st I Hok Hfc Hb.
+  - cbn [close_loop]. destruct (ms_pend st) as [|[k0 c0] r] eqn:Ep.
+    + exists a, st. split; [reflexivity|]. split; [exact I | exact Ep].
+    + exfalso.
+      assert (E0 : alookup k0 (ms_pend st) = Some c0) by (rewrite Ep; simpl; rewrite N.eqb_refl; reflexivity).
+      destruct (pend_key sm a st _ _ I Hok E0) as (_ & Hr & _).
+      specialize (Hb k0 (or_introl eq_refl)). simpl in Hb. lia.
+  - cbn [close_loop]. destruct (ms_pend st) as [|[k0 c0] r] eqn:Ep.
+    + exists a, st. split; [reflexivity|]. split; [exact I | exact Ep].
+    + assert (E0 : alookup k0 (ms_pend st) = Some c0) by (rewrite Ep; simpl; rewrite N.eqb_refl; reflexivity).
+      destruct (pend_key sm a st _ _ I Hok E0) as (Hc & Hr & _).
+      destruct (class_bound _ a Hc Hr) as (Hle & Hlt & Ha).
+      rewrite (next_is sm a st I Hlt).
+      assert (Hpn : alookup (idn a) (ms_pend st) = None).
+      { rewrite (inv_pend _ _ _ I), rank_idn.
+        destruct (N.ltb_spec (N.of_nat a) (N.of_nat a)); [reflexivity|]. rewrite Hfc. reflexivity. }
+      assert (Hcp : cpay sp enc sm mb a = []).
+      { unfold cpay. fold (idn a). rewrite Hfc. reflexivity. }
+      assert (I2 : Inv sm (S a) (ms_append st [] (idn a))).
+      { rewrite <- Hcp. rewrite <- (with_pend_same st) at 1.
+        rewrite <- (aremove_absent (idn a) (ms_pend st) Hpn) at 1.
+        apply append_inv with (sm := sm); try assumption.
+        - intros; reflexivity.
+        - exists k0. split; [|exact Hr].
+          apply in_akeys_alookup. rewrite (inv_pend _ _ _ I) in E0.
+          destruct (rank sp k0 <? N.of_nat a); [discriminate|].
+          destruct (alookup k0 sm); [discriminate | discriminate]. }
+      destruct (flush_buffer_inv sm (S a) _ I2 Hok) as (a3 & st3 & Ef & I3 & Hle3 & Hfc3 & _).
+      rewrite Ef.
+      apply (IH sm a3 st3 I3 Hok Hfc3).
+      intros k Hk. apply in_akeys_alookup in Hk.
+      destruct (alookup k (ms_pend st3)) as [c|] eqn:Ec; [|congruence].
+      destruct (pend_key sm a3 st3 _ _ I3 Hok Ec) as (_ & Hr3 & b & Eb & _).
+      assert (Hin : In k (akeys (ms_pend st))).
+      { apply in_akeys_alookup. rewrite (inv_pend _ _ _ I).
+        destruct (N.ltb_spec (rank sp k) (N.of_nat a)); [lia|]. rewrite Eb. discriminate. }
+      rewrite Ep in Hin. specialize (Hb k Hin). lia.
+Qed.
+
+Lemma close_inv : forall sm a st,
+  Inv sm a st -> sm_ok sm ->
+  exists a' st', ms_close sp st = (st', Ok tt) /\ Inv sm a' st' /\ ms_pend st' = [].
+Proof.
+  intros sm a st I Hok. unfold ms_close.
+  destruct (flush_buffer_inv sm a st I Hok) as (a1 & st1 & Ef & I1 & _ & Hfc1 & _).
+  rewrite Ef. apply (close_loop_inv _ sm a1 st1 I1 Hok Hfc1).
+  intros k Hk. unfold close_fuel. rewrite (inv_app _ _ _ I1).
+  assert (Hm : rank sp k <= maxN (map (rank sp) (akeys (ms_pend st1))))
+    by (apply maxN_ge, in_map, Hk).
+  rewrite Nat2N.inj_succ, N2Nat.id. lia.
+Qed.
+
+(* number of entries after close = highest stored rank + 1 *)
+Lemma closed_count : forall sm a st,
+  Inv sm a st -> ms_pend st = [] -> sm <> [] -> a = ccount sp sm.
+Proof.
+  intros sm a st I Hp Hne.
+  assert (Hall : forall id, In id (akeys sm) -> rank sp id < N.of_nat a).
+  { intros id Hin. apply in_akeys_alookup in Hin.
+    pose proof (inv_pend _ _ _ I id) as E. rewrite Hp in E. simpl in E.
+    destruct (N.ltb_spec (rank sp id) (N.of_nat a)) as [H|H]; [exact H|].
+    destruct (alookup id sm); [discriminate | congruence]. }
+  unfold ccount. set (mx := maxN (map (rank sp) (akeys sm))).
+  assert (Hmx : mx < N.of_nat a).
+  { destruct sm as [|[k0 v0] r]; [congruence|].
+    assert (Hin : forall l, (forall x, In x l -> x < N.of_nat a) -> l <> [] -> maxN l < N.of_nat a).
+    { induction l as [|y l' IHl]; [congruence|]. intros Hl _. simpl.
+      destruct l' as [|z l'']; [simpl; specialize (Hl y (or_introl eq_refl)); lia|].
+      assert (maxN (z :: l'') < N.of_nat a) by (apply IHl; [intros x Hx; apply Hl; right; exact Hx | discriminate]).
+      specialize (Hl y (or_introl eq_refl)). lia. }
+    apply Hin; [|discriminate].
+    intros x Hx. apply in_map_iff in Hx. destruct Hx as (id & <- & Hid). apply Hall. exact Hid. }
+  destruct (inv_top _ _ _ I) as [->|(id & Hin & Hle)]; [simpl in Hmx; lia|].
+  assert (rank sp id <= mx) by (apply maxN_ge, in_map, Hin).
+  lia.
+Qed.
+
+(* ---------- a whole store sequence ---------- *)
+Lemma run_inv : forall ops sm a st,
+  (ms_mask st = None \/ ms_mask st = Some mb) ->
+  Inv sm a (with_mask st mb) -> sm_ok sm -> FC sm a -> NoGaps sm a ->
+  NoDup (map fst ops) ->
+  (forall id, In id (map fst ops) -> in_class id /\ alookup id sm = None) ->
+  exists a' st', ms_run sp enc st ops = (st', map (fun _ => Ok tt) ops) /\
+                 (ops <> [] -> ms_mask st' = Some mb) /\
+                 (ms_mask st' = None \/ ms_mask st' = Some mb) /\
+                 Inv (rev ops ++ sm) a' (with_mask st' mb) /\ sm_ok (rev ops ++ sm).
+Proof.
+  induction ops as [|[id buf] r IH]; intros sm a st Hm I Hok Hfc Hng Hnd Hnew.
+  - exists a, st. simpl. split; [reflexivity|]. split; [congruence|]. split; [exact Hm|].
+    split; assumption.
+  - simpl in Hnd. inversion Hnd as [|x l Hnotin Hnd']; subst.
+    destruct (Hnew id (or_introl eq_refl)) as (Hc & Hn).
+    destruct (store_inv sm a st id buf Hm I Hok Hfc Hng Hc Hn)
+      as (a1 & st1 & Es & I1 & Hok1 & Hfc1 & Hng1).
+    assert (Hm1 : ms_mask st1 = Some mb) by (apply (inv_mask _ _ _ I1)).
+    destruct (IH ((id, buf) :: sm) a1 st1) as (a' & st' & Er & Hmk & Hm' & I' & Hok'); try assumption.
+    + right. exact Hm1.
+    + rewrite (with_mask_same st1 mb Hm1). exact I1.
+    + intros k Hk. split; [apply Hnew; right; exact Hk|].
+      simpl. destruct (N.eqb_spec id k) as [->|]; [contradiction|].
+      apply Hnew. right. exact Hk.
+    + exists a', st'. cbn [ms_run]. rewrite Es, Er. split; [reflexivity|].
+      cbn [rev]. rewrite <- app_assoc. cbn [app].
+      split; [|split; [exact Hm'|split; assumption]].
+      intros _. destruct r as [|o r'].
+      * simpl in Er. injection Er as <-. exact Hm1.
+      * apply Hmk. discriminate.
+Qed.
+
 End Buffer.
+
+(* ================================================================== *)
+(* 4. the closed minishard is a function of the stored SET             *)
+(* ================================================================== *)
+
+Lemma alookup_perm : forall {V} (l1 l2 : list (N * V)) k,
+  Permutation l1 l2 -> NoDup (akeys l1) -> alookup k l1 = alookup k l2.
+Proof.
+  intros V l1 l2 k Hp. induction Hp as [| [k0 v0] l l' Hp IH | [k1 v1] [k2 v2] l | l l' l'' H1 IH1 H2 IH2];
+    intro Hnd.
+  - reflexivity.
+  - simpl in *. inversion Hnd; subst. rewrite IH by assumption. reflexivity.
+  - simpl in *. inversion Hnd as [|? ? Hn1 Hnd']; subst.
+    destruct (N.eqb_spec k2 k) as [E2|E2]; destruct (N.eqb_spec k1 k) as [E1|E1]; try reflexivity.
+    exfalso. apply Hn1. left. congruence.
+  - rewrite IH1 by assumption. apply IH2.
+    unfold akeys in *. eapply Permutation_NoDup; [apply Permutation_map; exact H1 | exact Hnd].
+Qed.
+
+Lemma maxN_perm : forall l1 l2, Permutation l1 l2 -> maxN l1 = maxN l2.
+Proof. intros l1 l2 Hp. induction Hp; simpl; lia. Qed.
+
+Lemma ccount_perm : forall sp (l1 l2 : store_map), Permutation l1 l2 -> ccount sp l1 = ccount sp l2.
+Proof.
+  intros sp l1 l2 Hp. unfold ccount. f_equal. f_equal. apply maxN_perm.
+  unfold akeys. apply Permutation_map, Permutation_map. exact Hp.
+Qed.
+
+Lemma canon_ext : forall sp enc (sm sm' : store_map) mbv off a,
+  (forall k, alookup k sm' = alookup k sm) ->
+  chdr sp enc sm' mbv off a = chdr sp enc sm mbv off a /\
+  cdata sp enc sm' mbv a = cdata sp enc sm mbv a.
+Proof.
+  intros sp enc sm sm' mbv off a H.
+  assert (Hc : forall i, cpay sp enc sm' mbv i = cpay sp enc sm mbv i)
+    by (intro i; unfold cpay; rewrite H; reflexivity).
+  unfold chdr, cdata. split; apply flat_map_ext; intro i; rewrite Hc; reflexivity.
+Qed.
+
+(* the state of a MiniShard object after close(), as a function of the stored set *)
+Definition closed_mini (sp : sparams) (enc : bytes -> bytes) (mbv : N) (sm : store_map) : mini :=
+  let n := ccount sp sm in
+  {| ms_off := 0; ms_app := N.of_nat n;
+     ms_last := mk sp mbv (N.of_nat (Nat.pred n));
+     ms_pend := [];
+     ms_data := cdata sp enc sm mbv n;
+     ms_hdr := chdr sp enc sm mbv 0 n;
+     ms_mask := Some mbv |}.
+
+Lemma closed_mini_perm : forall sp enc mbv (l1 l2 : store_map),
+  Permutation l1 l2 -> NoDup (akeys l1) -> closed_mini sp enc mbv l1 = closed_mini sp enc mbv l2.
+Proof.
+  intros sp enc mbv l1 l2 Hp Hnd. unfold closed_mini.
+  rewrite (ccount_perm sp l1 l2 Hp).
+  destruct (canon_ext sp enc l2 l1 mbv 0 (ccount sp l2)) as [Eh Ed].
+  { intro k. apply alookup_perm; assumption. }
+  rewrite Eh, Ed. reflexivity.
+Qed.
+
+Theorem mini_close_canonical : forall sp enc K ops,
+  K < 2 ^ (sp_s sp + sp_m sp) -> cbits sp < 2 ^ 64 ->
+  ops <> [] -> NoDup (map fst ops) ->
+  (forall id, In id (map fst ops) -> in_class sp K id) ->
+  exists st,
+    ms_run sp enc ms_init ops = (st, map (fun _ => Ok tt) ops) /\
+    ms_close sp st = (closed_mini sp enc (K * 2 ^ sp_p sp) ops, Ok tt).
+Proof.
+  intros sp enc K ops HK HB Hne Hnd Hcl.
+  assert (I0 : Inv sp enc K [] 0 (with_mask ms_init (K * 2 ^ sp_p sp))).
+  { constructor; try reflexivity.
+    - intro id. simpl. destruct (rank sp id <? 0); reflexivity.
+    - left. reflexivity. }
+  destruct (run_inv sp enc K HK HB ops [] 0 ms_init) as (a & st & Er & Hmk & _ & I & Hok); try assumption.
+  - left. reflexivity.
+  - intros id [].
+  - reflexivity.
+  - intros i Hi. lia.
+  - intros id Hin. split; [apply Hcl; exact Hin | reflexivity].
+  - rewrite app_nil_r in *. specialize (Hmk Hne).
+    rewrite (with_mask_same st _ Hmk) in I.
+    destruct (close_inv sp enc K HK HB (rev ops) a st I Hok) as (a' & st' & Ec & I' & Hp).
+    exists st. split; [exact Er|]. rewrite Ec. f_equal.
+    assert (Hrne : rev ops <> []).
+    { intro E. apply Hne. rewrite <- (rev_involutive ops), E. reflexivity. }
+    pose proof (closed_count sp enc K HK HB (rev ops) a' st' I' Hp Hrne) as Ea.
+    rewrite <- (closed_mini_perm sp enc _ (rev ops) ops).
+    2: { apply Permutation_sym, Permutation_rev. }
+    2: { unfold akeys. rewrite map_rev. apply NoDup_rev. exact Hnd. }
+    assert (Hz : a' <> O) by (rewrite Ea; unfold ccount; discriminate).
+    unfold closed_mini. rewrite <- Ea.
+    destruct st' as [off app last pend data hdr mask].
+    pose proof (inv_off _ _ _ _ _ _ I') as E1. pose proof (inv_app _ _ _ _ _ _ I') as E2.
+    pose proof (inv_last _ _ _ _ _ _ I') as E3. pose proof (inv_hdr _ _ _ _ _ _ I') as E4.
+    pose proof (inv_data _ _ _ _ _ _ I') as E5. pose proof (inv_mask _ _ _ _ _ _ I') as E6.
+    cbn [ms_off ms_app ms_last ms_hdr ms_data ms_mask ms_pend] in *.
+    rewrite E1, E2, E3, E4, E5, E6, Hp.
+    destruct a' as [|j]; [congruence|]. reflexivity.
+Qed.
+
+(* order independence at the level of one minishard *)
+Theorem mini_order_independent : forall sp enc K ops1 ops2,
+  K < 2 ^ (sp_s sp + sp_m sp) -> cbits sp < 2 ^ 64 ->
+  ops1 <> [] -> NoDup (map fst ops1) ->
+  (forall id, In id (map fst ops1) -> in_class sp K id) ->
+  Permutation ops1 ops2 ->
+  exists st1 st2 c,
+    ms_run sp enc ms_init ops1 = (st1, map (fun _ => Ok tt) ops1) /\
+    ms_run sp enc ms_init ops2 = (st2, map (fun _ => Ok tt) ops2) /\
+    ms_close sp st1 = (c, Ok tt) /\ ms_close sp st2 = (c, Ok tt).
+Proof.
+  intros sp enc K ops1 ops2 HK HB Hne Hnd Hcl Hp.
+  destruct (mini_close_canonical sp enc K ops1 HK HB Hne Hnd Hcl) as (st1 & E1 & C1).
+  destruct (mini_close_canonical sp enc K ops2 HK HB) as (st2 & E2 & C2).
+  - intro E. subst. apply Permutation_sym, Permutation_nil in Hp. congruence.
+  - eapply Permutation_NoDup; [apply Permutation_map; exact Hp | exact Hnd].
+  - intros id Hin. apply Hcl. eapply Permutation_in; [apply Permutation_sym, Permutation_map; exact Hp | exact Hin].
+  - exists st1, st2, (closed_mini sp enc (K * 2 ^ sp_p sp) ops1).
+    repeat split; try assumption.
+    rewrite C2. f_equal. symmetry. apply closed_mini_perm; [exact Hp|]. exact Hnd.
+Qed.
+
+(* gap entries of the canonical minishard carry no bytes *)
+Lemma gap_entries_empty : forall sp enc (sm : store_map) mbv i,
+  alookup (mk sp mbv (N.of_nat i)) sm = None ->
+  cpay sp enc sm mbv i = [] /\
+  (forall off a, (i < a)%nat -> nth (3 * i + 2) (chdr sp enc sm mbv off a) 1 = 0).
+Proof.
+  intros sp enc sm mbv i Hn.
+  assert (Hc : cpay sp enc sm mbv i = []) by (unfold cpay; rewrite Hn; reflexivity).
+  split; [exact Hc|].
+  intros off a Hi. unfold chdr.
+  assert (Hgen : forall s0 n, (s0 <= i < s0 + n)%nat ->
+            nth (3 * (i - s0) + 2)
+                (flat_map (fun j => [cdelta sp mbv j; if (j =? 0)%nat then off else 0; lenN (cpay sp enc sm mbv j)])
+                          (seq s0 n)) 1 = 0).
+  { intros s0 n. revert s0. induction n as [|n IH]; intros s0 Hr; [lia|].
+    cbn [seq flat_map]. destruct (Nat.eq_dec i s0) as [->|Hne].
+    - replace (s0 - s0)%nat with 0%nat by lia. cbn. rewrite Hc. reflexivity.
+    - replace (3 * (i - s0) + 2)%nat with (3 + (3 * (i - S s0) + 2))%nat by lia.
+      cbn [app nth Nat.add]. apply IH. lia. }
+  specialize (Hgen 0%nat a ltac:(lia)). rewrite Nat.sub_0_r in Hgen. exact Hgen.
+Qed.
+
+(* non-vacuity of the hypotheses of mini_close_canonical *)
+Example mini_hyps_example :
+  let sp := {| sp_m := 1; sp_s := 1; sp_p := 1 |} in
+  let ops := [(13, [1; 2]); (4, []); (21, [3])] in
+  1 < 2 ^ (sp_s sp + sp_m sp) /\ cbits sp < 2 ^ 64 /\ ops <> [] /\ NoDup (map fst ops) /\
+  (forall id, In id (map fst ops) -> in_class sp 2 id) /\
+  snd (ms_close sp (fst (ms_run sp (fun b => b) ms_init ops))) = Ok tt /\
+  ms_hdr (fst (ms_close sp (fst (ms_run sp (fun b => b) ms_init ops)))) =
+    [4; 0; 0;  1; 0; 0;  7; 0; 0;  1; 0; 2;  7; 0; 0;  1; 0; 1].
+Proof.
+  cbv zeta. split; [reflexivity|]. split; [reflexivity|]. split; [discriminate|].
+  split; [repeat constructor; simpl; intuition discriminate|].
+  split; [|split; vm_compute; reflexivity].
+  intros id [<-|[<-|[<-|[]]]]; unfold in_class; vm_compute; repeat split; reflexivity.
+Qed.
